@@ -679,12 +679,20 @@ class Tr:
             self.curfile, self.cursrc = save
             return out, ret
         # returns are only supported as the last statement, or as `if c: return a` chains on numeric values
+        early = None
         for st in stmts:
             if any(isinstance(n, ast.Return) for n in ast.walk(st)):
                 # numeric helper with early returns: must not touch agents
                 out.extend(self.numeric_only(st, env2))
+                early = st
             else:
-                out.extend(self.stmt(st, env2))
+                got = self.stmt(st, env2)
+                if early is not None and got:
+                    # `if c: return` followed by statements with effects: the return GUARDS them; dropping it (as numeric_only does)
+                    # would make them unconditional.  Found by the state replay on `if a.fit >= agents[-1].fit: return; agents[-1] = ...`.
+                    self.err(st, 'statement with effects after the early return of line %d, which could not be lowered to if/else'
+                             % early.lineno)
+                out.extend(got)
         if last_ret is not None and last_ret.value is not None:
             ret = self.ev(last_ret.value, env2)
             self.visit(last_ret)
